@@ -104,18 +104,18 @@ struct Req {
     bool l2, vlan, v6; int l4;    // l4: 0 tcp, 1 udp+raw, 2 udp+dns, 3 icmp echo, 4 icmp timestamp, 5 icmp addrmask, 6 icmpv6 echo
     Mac smac, dmac; uint16_t vid; Addr src, dst; uint8_t ttl, tos; uint16_t ipid; bool ipopt;
     uint16_t sport, dport; uint32_t seq, ack; uint8_t tcpflags; Bytes payload; uint16_t id, seqn; std::string qname;
-    uint32_t timeout_s, timeout_us;
+    uint32_t timeout_s, timeout_us; int hist = 0;   // hist: what happened to the IPv4 request object before it is sent (1: serialized once before its options were added, 2: built with options, serialized, options removed again)
     std::string line() const {
         KV k; k.set("l2", l2).set("vlan", vlan).set("v6", v6).set("l4", l4).set("smac", Bytes(smac.b, smac.b + 6)).set("dmac", Bytes(dmac.b, dmac.b + 6)).set("vid", vid)
          .set("src", src.hexs()).set("dst", dst.hexs()).set("ttl", ttl).set("tos", tos).set("ipid", ipid).set("ipopt", ipopt).set("sport", sport).set("dport", dport).setu("seq", seq).setu("ack", ack)
-         .set("tf", tcpflags).set("pl", payload).set("id", id).set("sq", seqn).set("qn", qname.empty() ? "-" : qname).set("tos_", 0).set("T", timeout_s).set("Tu", timeout_us);
+         .set("tf", tcpflags).set("pl", payload).set("id", id).set("sq", seqn).set("qn", qname.empty() ? "-" : qname).set("tos_", 0).set("T", timeout_s).set("Tu", timeout_us).set("hist", hist);
         return k.line();
     }
     static Req parse(const KV& k) {
         Req r; r.l2 = k.num("l2"); r.vlan = k.num("vlan"); r.v6 = k.num("v6"); r.l4 = (int)k.num("l4"); Bytes a = k.bytes("smac"), b = k.bytes("dmac"); if (a.size() == 6) memcpy(r.smac.b, a.data(), 6); if (b.size() == 6) memcpy(r.dmac.b, b.data(), 6);
         r.vid = (uint16_t)k.num("vid"); r.src = Addr::from_hex(k.str("src")); r.dst = Addr::from_hex(k.str("dst")); r.ttl = (uint8_t)k.num("ttl"); r.tos = (uint8_t)k.num("tos"); r.ipid = (uint16_t)k.num("ipid"); r.ipopt = k.num("ipopt");
         r.sport = (uint16_t)k.num("sport"); r.dport = (uint16_t)k.num("dport"); r.seq = (uint32_t)k.u64("seq"); r.ack = (uint32_t)k.u64("ack"); r.tcpflags = (uint8_t)k.num("tf"); r.payload = k.bytes("pl");
-        r.id = (uint16_t)k.num("id"); r.seqn = (uint16_t)k.num("sq"); r.qname = k.str("qn") == "-" ? "" : k.str("qn"); r.timeout_s = (uint32_t)k.num("T"); r.timeout_us = (uint32_t)k.num("Tu"); return r;
+        r.id = (uint16_t)k.num("id"); r.seqn = (uint16_t)k.num("sq"); r.qname = k.str("qn") == "-" ? "" : k.str("qn"); r.timeout_s = (uint32_t)k.num("T"); r.timeout_us = (uint32_t)k.num("Tu"); r.hist = (int)k.num("hist", 0); return r;
     }
 };
 
@@ -185,6 +185,8 @@ struct SockEngine : Engine {
             if (q.l4 == 7) { q.sport = 68; q.dport = 67; } if (q.l4 == 8) { q.sport = 546; q.dport = 547; }
             q.seq = (uint32_t)cfg.next(); q.ack = (uint32_t)cfg.next(); q.tcpflags = cfg.chance(0.6) ? TH_SYN : (TH_ACK | TH_PSH);
             q.payload = (q.l4 == 1) ? wl.bytes((size_t)cfg.range(1, 80)) : (q.l4 == 0 && !(q.tcpflags & TH_SYN) && cfg.chance(0.5)) ? wl.bytes((size_t)cfg.range(1, 40)) : (q.l4 == 3 || q.l4 == 6) ? wl.bytes((size_t)cfg.range(0, 48)) : Bytes();
+            { Rng bp = root.fork(fmt("bigpayload%d", op).c_str()); if ((q.l4 == 1 || q.l4 == 3 || q.l4 == 6) && bp.chance(0.2)) q.payload = bp.bytes((size_t)bp.range(100, 1200));      // large echo / datagram payloads
+              Rng hs = root.fork(fmt("history%d", op).c_str()); if (!q.v6 && hs.chance(0.25)) q.hist = (int)hs.range(1, 2); }
             q.id = (uint16_t)cfg.next(); q.seqn = (uint16_t)cfg.next(); q.qname = cfg.chance(0.5) ? "www.example.com" : "a.b";
             q.timeout_s = (uint32_t)cfg.range(1, 5); if (cfg.chance(0.15)) q.timeout_s = (uint32_t)cfg.range(6, 60); q.timeout_us = cfg.chance(0.5) ? 0 : (uint32_t)cfg.range(0, 999999);
             int64_t start = 1700000000LL * 1000000 + (int64_t)cfg.range(0, 86400) * 1000000 + (cfg.chance(0.3) ? (int64_t)cfg.range(990000, 999999) : (int64_t)cfg.range(0, 999999));
@@ -284,7 +286,11 @@ struct SockEngine : Engine {
         }
         std::unique_ptr<PDU> l3;
         if (q.v6) { IPv6* ip = new IPv6(IPv6Address(q.dst.b), IPv6Address(q.src.b)); ip->hop_limit(q.ttl); l3.reset(ip); }
-        else { IP* ip = new IP(IPv4Address(q.dst.str()), IPv4Address(q.src.str())); ip->ttl(q.ttl); ip->tos(q.tos); ip->id(q.ipid); if (q.ipopt) { for (int i = 0; i < 4; ++i) ip->add_option(IP::option(IP::option_identifier(IP::NOOP, IP::CONTROL, 0))); } l3.reset(ip); }
+        else { IP* ip = new IP(IPv4Address(q.dst.str()), IPv4Address(q.src.str())); ip->ttl(q.ttl); ip->tos(q.tos); ip->id(q.ipid); const IP::option_identifier noop(IP::NOOP, IP::CONTROL, 0);
+            if (q.hist == 1 && q.ipopt) { (void)ip->serialize(); }      /* the object went over the wire once before the application added options to it */
+            if (q.ipopt || q.hist == 2) { for (int i = 0; i < 4; ++i) ip->add_option(IP::option(noop)); }
+            if (q.hist == 2 && !q.ipopt) { (void)ip->serialize(); while (ip->remove_option(noop)) {} }      /* options present when it was serialized, removed since */
+            l3.reset(ip); }
         l3->inner_pdu(l4.release());
         if (!q.l2) return l3;
         std::unique_ptr<PDU> eth(new EthernetII(EthernetII::address_type(q.dmac.b), EthernetII::address_type(q.smac.b)));
